@@ -135,8 +135,9 @@ KINDS = ["AtLeast", "AtLeastS", "AtMost", "All", "Any", "Xor", "XNor", "Imply", 
 
 class ModelGen:
     """Structured generator of proposition ASTs over a small leaf alphabet."""
-    def __init__(self, rng, nleaf=None, int_leaves=0.35, big=0.05, share=0.15, explicit=0.6, kinds=None, prefix="", strleaf=0.3):
+    def __init__(self, rng, nleaf=None, int_leaves=0.35, big=0.05, share=0.15, explicit=0.6, kinds=None, prefix="", strleaf=0.3, constvar=0.0):
         self.rng = rng
+        self.constvar = constvar
         self.share = share
         self.explicit = explicit
         self.kinds = kinds or KINDS
@@ -166,6 +167,12 @@ class ModelGen:
     def fresh(self):
         self.cnt += 1
         return f"{self.prefix}N{self.cnt}" if self.rng.random() < self.explicit else None
+    def finish(self, r):
+        """optionally pre-fix an explicitly named compound by constant own bounds"""
+        if self.constvar and r.get("id") is not None and r["k"] != "Not" and self.rng.random() < self.constvar:
+            r["vb"] = self.rng.choice([[0, 0], [1, 1]])
+        self.pool.append(r)
+        return r
     def children(self, depth, kmin=1, kmax=3):
         rng = self.rng
         k = rng.randint(kmin, kmax)
@@ -207,8 +214,7 @@ class ModelGen:
             r = {"k": "Imply", "ch": [self.children(depth, 1, 1)[0], self.children(depth, 1, 1)[0]], "id": v}
         elif kind == "Not":
             r = {"k": "Not", "ch": [self.children(depth, 1, 1)[0]], "id": None}
-        self.pool.append(r)
-        return r
+        return self.finish(r)
 
 # ----------------------------------------------------------------------------- reference semantics
 def ref_eval(p, env):
@@ -245,9 +251,14 @@ def leaves_of(p):
 def compound_ids(p):
     return {x.id for x in all_nodes(p) if not is_var(x)}
 
-def plain(p):
-    """no compound with constant own bounds; leaf ids disjoint from compound ids; one leaf definition per id"""
+def plain(p, allow_const=False):
+    """no compound with constant own bounds (unless allow_const); leaf ids disjoint from compound ids;
+    one leaf definition per id; one definition (object) per compound id"""
     nodes = all_nodes(p)
+    cdef = {}
+    for x in nodes:
+        if not is_var(x) and cdef.setdefault(x.id, canon(x)) != canon(x):
+            return False
     cids = {x.id for x in nodes if not is_var(x)}
     lb = {}
     for x in nodes:
@@ -256,7 +267,7 @@ def plain(p):
                 return False
             if lb.setdefault(x.id, x.bounds.as_tuple()) != x.bounds.as_tuple():
                 return False
-        elif x.bounds.lower == x.bounds.upper:
+        elif x.bounds.lower == x.bounds.upper and not allow_const:
             return False
     return True
 
@@ -295,3 +306,109 @@ def has_mixed_positive(p):
 
 def depth_of(p):
     return 0 if is_var(p) else 1 + max([depth_of(c) for c in p.propositions] + [0])
+
+
+# ----------------------------------------------------------------------------- interpretations
+def norm_val(v):
+    """int / (lo,hi) / Bounds -> (lo,hi)"""
+    if isinstance(v, puan.Bounds):
+        return (int(v.lower), int(v.upper))
+    if isinstance(v, (tuple, list)):
+        return (int(v[0]), int(v[1]))
+    return (int(v), int(v))
+
+def norm_interp(d):
+    return {k: norm_val(v) for k, v in d.items()}
+
+def form(b, rng):
+    """a (lo,hi) pair in one of the value forms the API accepts"""
+    r = rng.random()
+    if b[0] == b[1] and r < 0.5:
+        return int(b[0]) if r < 0.4 else np.int64(b[0])
+    return tuple(b) if r < 0.8 else puan.Bounds(b[0], b[1])
+
+def forms(d, rng):
+    return {k: form(v, rng) for k, v in d.items()}
+
+def ref_eval_d(p, d, env, out=None):
+    """independent reference for Sem.eval_d: d normalised {id:(lo,hi)}, env leaf values.
+    A node (or leaf) whose bounds after d are constant takes that constant."""
+    if is_var(p):
+        b = d.get(p.id, p.bounds.as_tuple())
+        r = b[0] if b[0] == b[1] else env[p.id]
+    else:
+        b = d.get(p.id, p.bounds.as_tuple())
+        if b[0] == b[1]:
+            r = b[0]
+        else:
+            s = sum(ref_eval_d(c, d, env, out) for c in p.propositions)
+            r = 1 if int(p.sign) * s >= p.value else 0
+    if out is not None:
+        out.setdefault(p.id, set()).add(int(r))
+    return int(r)
+
+def reachable_ids(p, d):
+    """ids that evaluate_propositions reports for a TOTAL interpretation: nodes not below a compound that
+    is pre-fixed by its declaration or named by the interpretation (a named compound whose bounds end up
+    constant is replaced by its bare variable, so its children are not reported)"""
+    out = set()
+    def go(x):
+        out.add(x.id)
+        if not is_var(x):
+            b = d.get(x.id, x.bounds.as_tuple())
+            if b[0] != b[1]:
+                for c in x.propositions:
+                    if not is_var(c) and c.id in d:
+                        out.add(c.id)
+                    else:
+                        go(c)
+    go(p)
+    return out
+
+def gen_valid(rng, n, res, depth_max=3, tries_factor=6, want=lambda m: True, **kw):
+    """n validated, plain (single definitions, no by-id leaf references) models as (ast, model)"""
+    out, tries = [], 0
+    while len(out) < n and tries < n * tries_factor:
+        tries += 1
+        g = ModelGen(random.Random(rng.getrandbits(64)), **kw)
+        ast = g.prop(rng.randint(0, depth_max))
+        try:
+            m = build(ast)
+            if is_var(m) or m.errors() or not plain(m, allow_const=True) or not want(m):
+                res.count("skipped_invalid")
+                continue
+        except Exception as e:
+            res.count("build_error:" + type(e).__name__)
+            continue
+        out.append((ast, m))
+    return out
+
+def rand_interp(m, rng, p_leaf=0.6, p_comp=0.0, point=0.7):
+    """random partial interpretation: leaves get points or sub-intervals inside their bounds,
+    compounds (with probability p_comp) get 0, 1 or (0,1)"""
+    d = {}
+    for l in leaves_of(m):
+        if rng.random() < p_leaf:
+            lo, hi = int(l.bounds.lower), int(l.bounds.upper)
+            if rng.random() < point:
+                v = rng.choice([lo, hi, rng.randint(lo, hi)])
+                d[l.id] = (v, v)
+            else:
+                a = rng.randint(lo, hi); bb = rng.randint(a, hi)
+                d[l.id] = (a, bb)
+    if p_comp:
+        for x in all_nodes(m):
+            if not is_var(x) and rng.random() < p_comp:
+                d[x.id] = rng.choice([(0, 0), (1, 1), (0, 1)])
+    return d
+
+def completion(m, d, rng):
+    """a leaf environment inside the intervals d (or the declaration) allows"""
+    env = {}
+    for l in leaves_of(m):
+        lo, hi = d.get(l.id, l.bounds.as_tuple())
+        env[l.id] = rng.choice([int(lo), int(hi), rng.randint(int(lo), int(hi))])
+    return env
+
+def dict_term(d, it):
+    return lst(f"({it.s(k)}, ({z(v[0])}, {z(v[1])}))" for k, v in d.items())
